@@ -61,11 +61,13 @@ def write_mc_module(scratch, name, pols, base="LBP"):
 # ------------------------------------------------------------------------------------------- real objects
 
 class _Cluster(object):
-    """What policies read from the cluster object handed to populate()."""
+    """What policies and the control connection read from the cluster object (handed to populate(); the control
+    connection reaches the policies through cluster.profile_manager)."""
 
-    def __init__(self, metadata, endpoints_resolved):
+    def __init__(self, metadata, endpoints_resolved, profile_manager=None):
         self.metadata = metadata
         self.endpoints_resolved = endpoints_resolved
+        self.profile_manager = profile_manager
 
 
 class _Query(object):
@@ -93,9 +95,15 @@ class LBPHarness(object):
         self.n = n
         self.hosts = {}
         self.metadata = md.Metadata()
-        self.cluster = _Cluster(self.metadata, [self.conn.DefaultEndPoint(addr(h)) for h in pol["cp"]])
         self.query = None
         self.policy = self._make_policy()
+        # Events reach the policy the way the cluster delivers them: through the real ProfileManager, and a change of
+        # location through the real ControlConnection._update_location_info (cassandra/cluster.py 4001-4011).
+        CL = repo_import("cassandra.cluster")
+        self.pm = CL.ProfileManager()
+        self.pm.profiles[CL.EXEC_PROFILE_DEFAULT] = CL.ExecutionProfile(load_balancing_policy=self.policy)
+        self.cluster = _Cluster(self.metadata, [self.conn.DefaultEndPoint(addr(h)) for h in pol["cp"]], self.pm)
+        self.cc = CL.ControlConnection(self.cluster, 2.0, 0, 0, 0)
 
     def _make_policy(self):
         P, p = self.P, self.pol
@@ -134,29 +142,28 @@ class LBPHarness(object):
                 else:
                     host.set_down()
             elif e == "Populate":
-                self.policy.populate(self.cluster, [self.hosts[h] for h in ev["order"]])
+                self.pm.populate(self.cluster, [self.hosts[h] for h in ev["order"]])
             elif e == "Up":
                 host = self.hosts[ev["h"]]
                 host.set_up()
-                self.policy.on_up(host)
+                self.pm.on_up(host)
             elif e == "Down":
                 host = self.hosts[ev["h"]]
                 host.set_down()
-                self.policy.on_down(host)
+                self.pm.on_down(host)
             elif e == "Add":
                 host = self._new_host(ev["h"], ev["d"])
                 host.set_up()
-                self.policy.on_add(host)
+                self.pm.on_add(host)
             elif e == "Remove":
                 host = self.hosts.pop(ev["h"])
                 host.set_down()
                 self.metadata.remove_host(host)
-                self.policy.on_remove(host)
+                self.pm.on_remove(host)
             elif e == "Relocate":
                 host = self.hosts[ev["h"]]
-                self.policy.on_down(host)
-                host.set_location_info(ev["d"], "r1")
-                self.policy.on_up(host)
+                if not self.cc._update_location_info(host, ev["d"], "r1"):
+                    raise RuntimeError("_update_location_info saw no change of location")
             else:
                 raise ValueError(e)
             return None
@@ -452,6 +459,130 @@ def random_paths(nodes, edges, init, rng, count, length):
     return paths
 
 
+# ------------------------------------------------------------------------------------------- whole-cluster histories
+
+class ClusterLBP(LBPHarness):
+    """The policy inside a real Cluster over simulated nodes (harness/sim): contact points are populated unlocated,
+    Cluster.connect() learns locations and the other hosts through the real
+    ControlConnection._refresh_node_list_and_token_map, later relocations are delivered by changing what
+    system.local / system.peers report and refreshing the node list."""
+
+    def __init__(self, pol, n, layout):
+        repo_import("cassandra.cluster")
+        from harness.sim.simcluster import SimWorld, FakeNode, make_cluster
+        self.P = repo_import("cassandra.policies")
+        self.pool = repo_import("cassandra.pool")
+        self.conn = repo_import("cassandra.connection")
+        self.pol, self.n = pol, n
+        self.query = None
+        self.policy = self._make_policy()
+        self.world = SimWorld()
+        self.nodes = {}
+        for h in range(1, n + 1):
+            self.nodes[h] = self.world.add_node(FakeNode(addr(h), dc=layout[h - 1], rack="r1", tokens=["%02x" % (16 * h)]))
+        cps = pol["cp"] or [1]
+        self.real_cluster = make_cluster(self.world, [addr(h) for h in cps], lbp=self.policy)
+        self.session = self.real_cluster.connect()
+        self.metadata = self.real_cluster.metadata
+
+    @property
+    def hosts(self):
+        return {self._ident(h): h for h in self.metadata.all_hosts()}
+
+    def relocate(self, h, d):
+        self.nodes[h].dc = d
+        try:
+            self.real_cluster.control_connection.refresh_node_list_and_token_map()
+            return None
+        except Exception as ex:
+            return "%s: %s" % (type(ex).__name__, ex)
+
+    def close(self):
+        try:
+            self.real_cluster.shutdown()
+        except Exception:
+            pass
+
+
+def cluster_histories(nodes, edges, n, dcs, rng, per_policy, relocations, on_failure, kinds=("DCAware", "RR")):
+    """Start-up of a real Cluster followed by relocations, for the policies of the graph; after every node-list
+    refresh the plans/distances are checked against the spec state reached by the same events."""
+    succ = {}
+    for s, d, lab in set(edges):
+        succ[(s, lab.replace(" ", ""))] = d
+    by_content = {}
+    for nid, st in nodes.items():
+        if st["populated"]:
+            by_content[(pol_name(pol_of_state(st)), frozenset(st["known"]), frozenset(st["live"]), tuple(st["dc"]), str(st["local"]))] = nid
+    pols = {}
+    for st in nodes.values():
+        p = pol_of_state(st)
+        if p["kind"] in kinds:
+            pols[pol_name(p)] = p
+    stats = {"clusters": 0, "refreshes_checked": 0, "failed": 0}
+    allh = frozenset(range(1, n + 1))
+    dcs = sorted(dcs)
+    for name in sorted(pols):
+        pol = pols[name]
+        auto = pol["kind"] == "DCAware" and pol["local"] == NODC
+        for _ in range(per_policy):
+            layout = [("A" if (auto and h in pol["cp"]) else rng.choice(dcs)) for h in range(1, n + 1)]
+            local = pol["local"] if not auto else "A"
+            if pol["kind"] != "DCAware":
+                local = NODC
+            cur = by_content.get((name, allh, allh, tuple(layout), local))
+            if cur is None:
+                continue
+            cps = pol["cp"] or [1]
+            events = [{"e": "Learn", "h": h, "d": NODC if pol["cp"] else layout[h - 1], "up": True} for h in cps]
+            events.append({"e": "Populate", "order": list(cps)})
+            events += [{"e": "Relocate", "h": h, "d": layout[h - 1]} for h in cps if pol["cp"]]
+            events += [{"e": "Add", "h": h, "d": layout[h - 1]} for h in range(1, n + 1) if h not in cps]
+            hz = None
+            try:
+                try:
+                    hz = ClusterLBP(pol, n, layout)
+                except Exception:                 # e.g. no host the policy allows a session to use: not a history of interest
+                    stats["not_started"] = stats.get("not_started", 0) + 1
+                    continue
+                stats["clusters"] += 1
+                obs = hz.observe()
+                fails = check_obs(nodes[cur], obs)
+                stats["refreshes_checked"] += 1
+                if fails:
+                    stats["failed"] += 1
+                    on_failure(pol, events, nodes[cur], obs, fails)
+                    continue
+                for _r in range(relocations):
+                    movable = [h for h in range(1, n + 1) if not (auto and h in pol["cp"])]
+                    if not movable:
+                        break
+                    h = rng.choice(movable)
+                    d = rng.choice([x for x in dcs if x != layout[h - 1]])
+                    nxt = succ.get((cur, 'Relocate(%d,"%s")' % (h, d)))
+                    if nxt is None:
+                        break
+                    err = hz.relocate(h, d)
+                    layout[h - 1] = d
+                    events = events + [{"e": "Relocate", "h": h, "d": d}]
+                    obs = hz.observe() if err is None else {"plan1": [], "plan2": [], "dist": ["-"] * n, "error": err}
+                    fails = check_obs(nodes[nxt], obs)
+                    stats["refreshes_checked"] += 1
+                    if fails:
+                        stats["failed"] += 1
+                        on_failure(pol, events, nodes[nxt], obs, fails)
+                        break
+                    cur = nxt
+            except Exception as ex:
+                stats["failed"] += 1
+                on_failure(pol, events, nodes[cur], {"plan1": [], "plan2": [], "dist": ["-"] * n, "error": "%s: %s" % (type(ex).__name__, ex)},
+                           [("exception", "%s: %s" % (type(ex).__name__, ex), ())])
+            finally:
+                if hz is not None:
+                    hz.close()
+    return stats
+
+
 # ------------------------------------------------------------------------------------------- TLC simulation with action labels
 
 _SIM_ACT = re.compile(r'^\\\*\s*<(\w+)(\([^>]*?\))?\s+line', re.M)
@@ -594,3 +725,94 @@ def tokenaware_failures(real, head, tail, child, reps, up, dist, shuffle):
     if got_tail != tail:
         out.append(("tail-order", "after the replicas the plan %s must continue with %s (child order)" % (real, tail)))
     return out
+
+
+# =========================================================================================== C22: ReplicaCache.tla schedules
+
+def schedules_of_graph(nodes, edges, init):
+    """Every maximal path of the (acyclic) ReplicaCache.tla state graph as (warm, [thread letter per step])."""
+    succ = {}
+    for s, d, lab in set(edges):
+        if s != d:
+            succ.setdefault(s, []).append((lab.strip(), d))
+    out = []
+
+    def walk(n, path):
+        nxt = sorted(succ.get(n, ()))
+        if not nxt:
+            out.append(list(path))
+            return
+        for lab, d in nxt:
+            path.append(lab[0])
+            walk(d, path)
+            path.pop()
+    for i in sorted(init):
+        before = len(out)
+        walk(i, [])
+        warm = int(nodes[i]["cache"]) != -1
+        out[before:] = [(warm, p) for p in out[before:]]
+    return out
+
+
+def run_cache_schedule(inst_old, new_strat, warm, schedule, n, bkey=1):
+    """Two logical threads on one real Metadata/TokenMap (harness/sim/detsched): B makes the first token-aware plan
+    for the keyspace, U installs `new_strat` through Metadata._update_keyspace.  TokenMap._rebuild_lock is a
+    scheduler-aware re-entrant lock (yield before acquire and after release) and the computation of the replica map
+    yields once before it starts.  `schedule` says which thread runs to its next yield point; threads that are
+    finished or blocked at their turn are skipped and everything is run to completion at the end.
+    Returns {"builder_plan": {key: plan}, "final_plan": {key: plan}, "error": text|None, "skipped": n}."""
+    from harness.sim.detsched import DetSched, DRLock, yield_point
+    b = TokenAwareBinding(inst_old, n)
+    hosts = list(range(1, b.n + 1))
+    up = {h: "T" for h in hosts}
+    dist = {h: "LOCAL" for h in hosts}
+    keys = list(range(1, 2 * len(inst_old["ring"]) + 2))
+    res = {"builder_plan": {}, "final_plan": {}, "error": None, "skipped": 0}
+    try:
+        if warm:
+            b.replicas(1)
+        tm = b.md.token_map
+        tm._rebuild_lock = DRLock("rebuild", yield_on_release=True)
+        inner = tm.replica_map_for_keyspace
+
+        def computing(ks_meta):
+            yield_point("compute")
+            return inner(ks_meta)
+        tm.replica_map_for_keyspace = computing
+        s = DetSched()
+
+        def builder():
+            plan, err = b.plan(bkey, hosts, up, dist, False)
+            if err:
+                raise RuntimeError(err)
+            res["builder_plan"][bkey] = plan
+
+        s.spawn("B", builder)
+        s.spawn("U", lambda: b.alter(new_strat, via="update"))
+        try:
+            for t in schedule:
+                th = s.threads[t]
+                if th.done or th.is_blocked():
+                    res["skipped"] += 1
+                    continue
+                s.step(t)
+            guard = 0
+            while s.alive():
+                r = sorted(s.runnable(), key=lambda x: x.name)
+                if not r:
+                    raise RuntimeError("deadlock: %s" % [(t.name, str(t.waiting_for)) for t in s.alive()])
+                s.step(r[0].name)
+                guard += 1
+                if guard > 1000:
+                    raise RuntimeError("threads do not finish")
+        finally:
+            s.close()
+            DetSched.current = None
+        for k in keys:
+            plan, err = b.plan(k, hosts, up, dist, False)
+            if err:
+                raise RuntimeError(err)
+            res["final_plan"][k] = plan
+    except Exception as ex:
+        res["error"] = "%s: %s" % (type(ex).__name__, ex)
+    return res
